@@ -377,7 +377,7 @@ func Orchestrate(propID, tier string, seed int64, replay string) int {
 		cov["samples"] = []any{}
 	}
 	ev["coverage"] = cov
-	if ev["assumptions"] == nil {
+	if len(p.Assumptions) == 0 {
 		ev["assumptions"] = []string{}
 	}
 	eb, _ := json.MarshalIndent(ev, "", " ")
